@@ -228,3 +228,35 @@ Fixpoint keep_by {A} (l : list A) (keep : list bool) : list A :=
   | _, _ => []
   end.
 Definition s_retain (s : list byte) (keep : list bool) : list byte := concat (keep_by (chars s) keep).
+
+(* ---------- String::from_utf16_in: char::decode_utf16, then push each char ---------- *)
+Definition surrogate_pair (hi lo : N) : N := 65536 + (hi - 55296) * 1024 + (lo - 56320).
+Fixpoint decode_utf16 (us : list N) : option (list N) :=
+  match us with
+  | [] => Some []
+  | u :: r =>
+      if (u <? 55296) || (57343 <? u) then
+        match decode_utf16 r with Some cps => Some (u :: cps) | None => None end
+      else if u <=? 56319 then               (* a leading surrogate needs a trailing one *)
+        match r with
+        | lo :: r2 =>
+            if in_range 56320 57343 lo then
+              match decode_utf16 r2 with
+              | Some cps => Some (surrogate_pair u lo :: cps)
+              | None => None
+              end
+            else None
+        | [] => None
+        end
+      else None                              (* an unpaired trailing surrogate *)
+  end.
+
+(* the UTF-16 encoding of a scalar value (what char::encode_utf16 writes): the specification side *)
+Definition enc16 (cp : N) : list N :=
+  if cp <? 65536 then [cp] else [55296 + (cp - 65536) / 1024; 56320 + (cp - 65536) mod 1024].
+
+Definition from_utf16 (us : list N) : option (list byte) :=
+  match decode_utf16 us with
+  | Some cps => Some (concat (map encode cps))
+  | None => None
+  end.
